@@ -207,7 +207,9 @@ fn evil(i: usize) -> Evil {
 }
 
 /// Serializes one extra (out-of-domain) case. `idx` selects the case, `s` is the payload.
-fn extra_case(idx: usize, s: &str, cfg: SerCfg) -> Option<(String, Result<String, String>)> {
+/// `keys` is the string the char-keyed map takes its keys from (the payload itself also for the
+/// placeholder twin: keys are names, not payload).
+fn extra_case(idx: usize, s: &str, keys: &str, cfg: SerCfg) -> Option<(String, Result<String, String>)> {
     let nk = KEY_POOL.len();
     Some(match idx {
         i if i < nk => {
@@ -239,7 +241,7 @@ fn extra_case(idx: usize, s: &str, cfg: SerCfg) -> Option<(String, Result<String
         }
         i if i == 4 * nk + 18 => {
             let mut m: BTreeMap<char, String> = BTreeMap::new();
-            for c in s.chars().chain(['k']) {
+            for c in keys.chars().chain(['k']) {
                 m.insert(c, s.to_string());
             }
             ("map with char keys taken from the payload".into(), ser_root(&m, cfg, "m"))
@@ -304,7 +306,49 @@ fn judge(out: &Result<String, String>, twin: &Result<String, String>, payload: &
     }
 }
 
-const ALPHA: [&str; 11] = ["<", ">", "&", "'", "\"", "]", "-", "\0", "\n", " ", "a"];
+const ALPHA: [&str; 13] = ["<", ">", "&", "'", "\"", "]", "-", "\0", "\n", " ", "a", "\u{e9}", "\u{20ac}"];
+
+/// Size thresholds of the escaping / chunking code: `filler^p . hostile . filler^q` in every payload
+/// position; p through every small size and around every power of two up to 2^13.
+const LONG_HOSTILE: [&str; 9] = ["<x/>", "&", "\"", "'", "]]>", ">", "\u{e9}<", "\0", " < "];
+const LONG_FILL: [&str; 2] = ["a", "\u{e9}"];
+
+fn sweep_family_long<T: Fam>(ctx: &Ctx, ln: u32) {
+    if T::payload2("a", false).is_empty() {
+        return;
+    }
+    let ps: Vec<u32> = crate::inputs::size_list(ctx.tier.pick(24, 70), ctx.tier.pick(13, 16));
+    let qs: [usize; 4] = [0, 1, 5, 100];
+    let cfgs: Vec<SerCfg> = (0..3).map(|level| SerCfg { level, indent: level == 1, expand: false, root: false }).collect();
+    let (np, nh) = (ps.len() as u64, LONG_HOSTILE.len() as u64);
+    ctx.layer(&format!("family_long.{}", T::NAME), ln, np * nh * 8, json!({"shape": "filler^p . hostile . filler^q", "hostile": LONG_HOSTILE, "fillers": LONG_FILL, "p": format!("0..=dense and around the powers of two up to 2^13/2^16 ({} sizes)", np), "q": qs, "serializer_configurations": 3}), |i0, acc| {
+        let mut i = i0;
+        let q = qs[(i % 4) as usize];
+        i /= 4;
+        let f = LONG_FILL[(i % 2) as usize];
+        i /= 2;
+        let h = LONG_HOSTILE[(i % nh) as usize];
+        let p = ps[(i / nh) as usize] as usize;
+        let s = format!("{}{}{}", f.repeat(p), h, f.repeat(q));
+        let ph = placeholder(&s);
+        let vals = T::payload2(&s, false);
+        let twins = T::payload2(&ph, false);
+        for (pi, v) in vals.iter().enumerate() {
+            for &cfg in &cfgs {
+                acc.evaluations += 1;
+                acc.traces += 1;
+                acc.transitions += 2;
+                let out = ser(v, cfg);
+                let twin = twins.get(pi).map(|t| ser(t, cfg)).unwrap_or(Err("no twin".into()));
+                match judge(&out, &twin, h) {
+                    Ok(true) => acc.nt_count += 1,
+                    Ok(false) => acc.count("serializer_refused", 1),
+                    Err(what) => acc.violation((ln, i0), format!("{} payload {:?}^{} . {:?} . {:?}^{} in position {} with {:?}: {}", T::NAME, f, p, h, f, q, pi, cfg, lossy_head(what.as_bytes())), json!({"kind": "family", "type": T::NAME, "payload": s, "position": pi, "cfg": cfg.index()})),
+                }
+            }
+        }
+    });
+}
 
 fn sweep_family<T: Fam>(ctx: &Ctx, ln: u32, max: u32) {
     if T::payload2("a", false).is_empty() {
@@ -430,7 +474,7 @@ pub fn run(ctx: &Ctx) {
     ctx.set_rule(
         "(1) every value of the C06 type family x 24 serializer configurations, and the io-sink entry points (to_utf8_io_writer, \
          Writer::write_serializable) into sinks that accept 1, 2, 3, 7 or all bytes per write call, which must produce the bytes of to_string; (2) per payload position of each family type, every \
-         string up to length 3/5 over {< > & ' \" ] - NUL newline space a}, INCLUDING strings outside the round-trip domain (leading / \
+         string up to length 3/5 over {< > & ' \" ] - NUL newline space a é €} (and long strings filler^p . hostile . filler^q with p through every small size and around every power of two up to 2^13), INCLUDING strings outside the round-trip domain (leading / \
          trailing blanks, empty list items); (3) out-of-domain cases x the same strings: maps with 18 hostile keys ('' 1a 'a b' a>b \
          p:k @ @a '@a b' @< $text $value xmlns:a < a/ ...), the same pool as root name, as run-time struct field name and struct name, and as keys of a map written through serialize_key + serialize_value, \
          unit variants renamed to markup in attribute / element / $value / $text position, Option without skip, nested sequences, \
@@ -449,6 +493,10 @@ pub fn run(ctx: &Ctx) {
         ($($t:ident),*) => { $( sweep_values::<$t>(ctx, ln, level); ln += 1; sweep_family::<$t>(ctx, ln, max); ln += 1; )* };
     }
     crate::for_each_type!(go);
+    macro_rules! go_long {
+        ($($t:ident),*) => { $( sweep_family_long::<$t>(ctx, ln); ln += 1; )* };
+    }
+    crate::for_each_type!(go_long);
     let k = ALPHA.len() as u64;
     let cfgs = SerCfg::all();
     let nstr = count_upto(k, max);
@@ -459,8 +507,8 @@ pub fn run(ctx: &Ctx) {
         let s: String = d.iter().map(|&x| ALPHA[x as usize]).collect();
         let ph = placeholder(&s);
         for &cfg in &cfgs {
-            let Some((name, out)) = extra_case(case, &s, cfg) else { continue };
-            let twin = extra_case(case, &ph, cfg).map(|x| x.1).unwrap_or(Err("none".into()));
+            let Some((name, out)) = extra_case(case, &s, &s, cfg) else { continue };
+            let twin = extra_case(case, &ph, &s, cfg).map(|x| x.1).unwrap_or(Err("none".into()));
             acc.evaluations += 1;
             acc.traces += 1;
             acc.transitions += 2;
@@ -479,8 +527,8 @@ pub fn replay(case: &Value) -> Result<(), String> {
         "extra" => {
             let s = case["payload"].as_str().unwrap_or("");
             let idx = case["case"].as_u64().unwrap() as usize;
-            let (name, out) = extra_case(idx, s, cfg).ok_or("bad case")?;
-            let twin = extra_case(idx, &placeholder(s), cfg).unwrap().1;
+            let (name, out) = extra_case(idx, s, s, cfg).ok_or("bad case")?;
+            let twin = extra_case(idx, &placeholder(s), s, cfg).unwrap().1;
             println!("{} payload {:?} {:?}\noutput: {:?}\nplaceholder output: {:?}", name, s, cfg, out, twin);
             judge(&out, &twin, s).map(|_| ())
         }
